@@ -70,7 +70,7 @@ CODE_TEXT = {1: "implementation value differs from the specified value", 2: "imp
 REGION_SIGS = {1: "seq-collision", 2: "bytes-gap", 3: "sugar-tuple-ill-typed"}
 
 
-def judge(run, cases, outs, codes, fails, oracle, value_codes=(1, 2, 3), corr_codes=(4, 5, 6)):
+def judge(run, cases, outs, codes, fails, oracle, value_codes=(1, 2, 3), corr_codes=(4, 5, 6), skip_regions=False):
     """Standard verdicts for a differential run against the reference interpreter.
     code = verdict + 100 * region; a failure inside the region of an open finding is attributed to it."""
     for f in fails:
@@ -81,6 +81,8 @@ def judge(run, cases, outs, codes, fails, oracle, value_codes=(1, 2, 3), corr_co
             continue
         base, region = code % 100, code // 100
         sig = REGION_SIGS.get(region)
+        if region and skip_regions:
+            continue      # inside the region of a finding that belongs to another property
         rec = {"case": {"label": c.get("label"), "src": c["src"], "coq": c["coq"]}, "observed": outs.get(c["id"]),
                "oracle": oracle + ": " + CODE_TEXT.get(base, str(base))}
         if base in value_codes:
